@@ -1959,6 +1959,11 @@ int xmp_start_player(xmp_context opaque, int rate, int format)
 		f->end_point = p->scan[0].num;
 	}
 
+#ifndef LIBXMP_CORE_PLAYER
+	/* Module-wide state changed by effects of a previous run */
+	libxmp_reset_module_extras(ctx);
+#endif
+
 	update_from_ord_info(ctx);
 
 	if (libxmp_virt_on(ctx, mod->chn + smix->chn) != 0) {
